@@ -5,6 +5,8 @@ import (
 	"encoding/json"
 	"fmt"
 	"math"
+	"math/big"
+	"net/url"
 	"os"
 	"os/exec"
 	"reflect"
@@ -45,6 +47,20 @@ type c03Struct struct {
 	Name string
 	P    *int
 	S    *string
+}
+
+type c03Stamp int64
+
+type c03Visit struct {
+	Page string
+	at   time.Time
+}
+
+type c03Hidden struct {
+	Label string
+	n     *big.Int
+	u     *url.URL
+	when  *time.Time
 }
 
 type c03Case struct {
@@ -131,6 +147,12 @@ func (p *c03) gen(seed uint64, idx int) c03Case {
 		// a NaN key among numeric keys; channels, functions and pointers handed to print, format and dump
 		"{% for k, v in nanm %}{{ k }}={{ v }};{% endfor %}", "{{ nanm|keys|join(',') }}|{{ nanm|first }}|{{ nanm|last }}", "{{ nanm }}|{{ nanm|json_encode|length }}", "{{ nanm|merge(ik)|keys|join(',') }}",
 		"{{ ch }}|{{ fn }}|{{ [ch, fn] }}", "{{ '%v %v'|format(p, ps) }}|{{ '%d'|format(p) }}|{{ '%s'|format(pstr) }}", "{{ dump(mp) }}|{{ dump(p) }}|{{ dump(st) }}", "{{ dump(ps, lp) }}|{{ '%v'|format(mp) }}|{{ '%v'|format(pp) }}", "{{ {'c': ch}|join }}{{ dump(ch)|length > 0 ? 'd' : 'n' }}",
+		// timestamps of the less common number types and a pointer to a time: not "the current date" (the case re-renders these
+		// after the clock has moved on by more than a second, see Run)
+		"{{ ts32|date('Y-m-d H:i:s') }}|{{ tsu|date('H:i:s') }}|{{ tsf|date('i:s') }}", "{{ tsn|date('Y s') }}|{{ pd|date('Y-m-d H:i:s') }}|{{ tsnamed|date('d H:i:s') }}",
+		// values that print themselves (String methods) held in unexported fields, where fmt cannot call the method and would
+		// print the pointers inside them
+		"{{ visit }}", "{{ visits }}|{{ visits|join(',') }}", "{{ '%v'|format(visits) }}|{{ visit ~ '' }}", "{{ {'v': visit}|join }}{{ [visit]|first }}", "{{ hidden }}|{{ dump(hidden)|length > 0 ? 'd' : 'n' }}",
 		"{% include 'inc3' with {'a1': a2, 'a2': a3, 'a3': a1, 'n1': n2 + 1, 'n2': 10} %}", "{% include 'inc3' with {'a3': a2 ~ a1, 'a2': a1, 'a1': 'x', 'n2': n1, 'n1': n2} only %}",
 		"{% include 'inc' with m %}", "{% include 'inc' with " + hash(r.Range(3, 6)) + " only %}",
 	}
@@ -274,7 +296,14 @@ func (c c03Case) buildCtx(variant uint64) map[string]interface{} {
 	for _, i := range r.Perm(len(nanKeys)) {
 		nanm[nanKeys[i]] = fmt.Sprintf("f%d", i)
 	}
+	zone := time.FixedZone("CET", 3600)
+	at := time.Date(2024, 1, 2, 3, 4, 5, 0, zone)
+	u, _ := url.Parse("https://example.org/a?b=c")
 	return map[string]interface{}{
+		"ts32": int32(34560000), "tsu": uint(34560001), "tsf": float32(34560000), "tsn": json.Number("34560002"), "pd": &at, "tsnamed": c03Stamp(34560003),
+		"visit":  c03Visit{Page: "home", at: at},
+		"visits": []c03Visit{{Page: "a", at: at}, {Page: "b", at: at.Add(time.Hour)}},
+		"hidden": c03Hidden{Label: "h", n: big.NewInt(1 << 40), u: u, when: &at},
 		"nanm": nanm, "ch": make(chan int), "fn": func() {}, "pstr": s,
 		"mix":  mix,
 		"tie2": tie2, "im3": im3,
@@ -411,6 +440,12 @@ func (p *c03) Run(rec *core.Recorder, seed uint64, idx int, tier string) {
 		outs = append(outs, c.render(uint64(i)))
 	}
 	rec.Count("renders", 12)
+	if (strings.Contains(c.src, "ts32|") || strings.Contains(c.src, "tsn|")) && core.Hash64(c.src, fmt.Sprint(c.keys), "wait")%6 == 0 {
+		// let the clock move on: what these fragments print is a function of the context, not of the moment of rendering
+		time.Sleep(1100 * time.Millisecond)
+		outs = append(outs, c.render(uint64(50)), c.render(uint64(51)))
+		rec.Count("renders-after-a-second", 2)
+	}
 	exe, _ := os.Executable()
 	cmd := exec.Command(exe, "oneshot", "C03", fmt.Sprint(seed), fmt.Sprint(idx))
 	var stderr bytes.Buffer
